@@ -570,6 +570,18 @@ func retLoggerScenario(p retPop, separate bool, b zzvrt.Bounds) *zzvrt.Scenario 
 					v = append(v, zzvrt.Violation{Clause: "expired-own-file-kept", Key: fmt.Sprintf("logger separate=%v name=%s age=cutoff%+v", separate, e.name, e.mtime.Sub(cutoff)),
 						Detail: fmt.Sprintf("%s should have been deleted [%s]", e.name, key)})
 				case !expectDeleted && !left[e.name]:
+					// judged at the moment of the removal, as in retScenario (a cleanup may run a little after its rotation)
+					if !e.dir && own {
+						late := false
+						for _, c := range x.FS.Log {
+							if c.Op == "remove" && c.Err == "" && c.Path == rollDir+"/"+e.name && e.mtime.Before(c.At.Add(-time.Duration(p.maxAge)*time.Hour)) {
+								late = true
+							}
+						}
+						if late {
+							break
+						}
+					}
 					v = append(v, zzvrt.Violation{Clause: "foreign-or-young-deleted", Key: fmt.Sprintf("logger separate=%v name=%s age=cutoff%+v", separate, e.name, e.mtime.Sub(cutoff)),
 						Detail: fmt.Sprintf("%s (dir=%v, mtime %s, cut-off %s) must survive but was deleted [%s]", e.name, e.dir, e.mtime.Format(time.RFC3339Nano), cutoff.Format(time.RFC3339Nano), key)})
 				}
